@@ -163,9 +163,14 @@ def h_consume_multi(ctx):
     import itertools
     pair = ctx.choose("members", list(itertools.permutations(cands, 2)))
     as_callable = ctx.choose("set_given", ["directly", "callable"]) == "callable"
-    twist = ctx.choose("twist", ["none", "second-kid-unknown", "second-kid-is-first"])
+    twist = ctx.choose("twist", ["none", "second-kid-unknown", "first-kid-unknown", "second-kid-is-first"])
+    # which key a kid resolves to - and that an unknown kid is an invalid-key-id error - does not depend on how many recipients must validate
+    anyrec = family == "jwe" and ctx.choose("validation", ["every recipient", "any recipient (verify_all_recipients=False)"]) != "every recipient"
     arg, ks = build_set(sname, private=True, as_callable=as_callable)
     kids = [ms[pair[0]]["kid"], ms[pair[1]]["kid"]]
+    if twist == "first-kid-unknown":
+        kids[0] = "nobody"
+        twist = "second-kid-unknown"
     if twist == "second-kid-unknown":
         kids[1] = "nobody"
     elif twist == "second-kid-is-first":
@@ -185,10 +190,15 @@ def h_consume_multi(ctx):
             m = ms[i]
             recs.append({"jwk": m["jwk"] if m["jwk"]["kty"] == "oct" else rjwk.public_of(m["jwk"]), "header": {"alg": ENC_ALG[m["jwk"]["kty"]].replace("ECDH-ES", "ECDH-ES+A128KW").replace("+A128KW+A128KW", "+A128KW"), "kid": kid}})
         tok = rjwe.encrypt({"enc": "A128GCM"}, b"secret", recs, form="general", rand=rjwe.Drbg(repr((sname, pair, twist)).encode()))
-        r = scen.jwe_decrypt(tok, arg, sorted(set(ENC_ALG.values())) + ["A128GCM", "ECDH-ES+A128KW"])
+        algs_ = sorted(set(ENC_ALG.values())) + ["A128GCM", "ECDH-ES+A128KW"]
+        if anyrec:
+            from joserfc.jwe import JWERegistry
+            r = scen.jwe_decrypt(tok, arg, None, registry=JWERegistry(algorithms=algs_, verify_all_recipients=False))
+        else:
+            r = scen.jwe_decrypt(tok, arg, algs_)
         good = r.ok and r.value[0] == b"secret"
     vs = []
-    what = f"{family} general JSON, set={sname}, entries made with members {pair}, kids {kids}, set given {'via callable' if as_callable else 'directly'}"
+    what = f"{family} general JSON, set={sname}, entries made with members {pair}, kids {kids}, set given {'via callable' if as_callable else 'directly'}" + (", any-recipient validation" if anyrec else "")
     same_material = ms[pair[0]]["jwk"] == ms[pair[1]]["jwk"]
     if twist == "none":
         if not good:
@@ -199,9 +209,9 @@ def h_consume_multi(ctx):
         elif not isinstance(r.exc, InvalidKeyIdError):
             vs.append(viol(f"{family} general JSON: unknown kid of the second entry is not reported as invalid-key-id ({type(r.exc).__name__})", f"{what}: {r.exc!r}"))
     else:
-        if r.ok and not same_material:
+        if r.ok and not same_material and not anyrec:      # under any-recipient validation the genuine first entry is enough
             vs.append(viol(f"{family} general JSON: an entry made with one member is accepted under another member's kid", what))
-    return Outcome(f"multi:{twist}:{'ok' if r.ok else 'rej:' + r.etype}", vs, nontrivial=(sname, family, pair, as_callable, twist))
+    return Outcome(f"multi:{twist}:{'ok' if r.ok else 'rej:' + r.etype}", vs, nontrivial=(sname, family, pair, as_callable, twist, tuple(kids), anyrec))
 
 
 def h_produce(ctx):
@@ -575,7 +585,7 @@ class SetModel:
     MENU = ["sign-nokid-pick0", "sign-nokid-pick-last", "verify-member0", "verify-last", "lookup-all", "lookup-removed", "export-public",
             "export-then-the-caller-edits-the-document",
             "rotate-first-in-place", "rotate-last-in-place", "append-new", "append-untouched-with-own-kid", "remove-first", "encrypt-nokid-pick0",
-            "decrypt-last", "go-on-with-copy.deepcopy-of-the-set", "go-on-with-pickle-of-the-set"]
+            "decrypt-last", "go-on-with-copy.deepcopy-of-the-set", "go-on-with-pickle-of-the-set", "lookup-the-key-that-joins-next"]
 
     def __init__(self, kind):
         self.kind = kind
@@ -657,6 +667,19 @@ class SetModel:
                 c = call(ks.get_by_kid, m["kid"])
                 if not c.ok or rjwk.thumbprint(rjwk.public_of(rjwk.export(c.value.raw_value, False) if j["kty"] != "oct" else {"kty": "oct", "k": b64.enc(c.value.raw_value)})) != tp(j):
                     out["viol"].append(("lookup by kid does not return the member with that kid", f"{m['kid']}: {c.exc!r}"))
+        elif op == "lookup-the-key-that-joins-next":
+            # a token of the key that the next rotation / append will bring in arrives early: refused now (and accepted once the key is a member)
+            nj = scen.key(self.kind, st["next"])
+            if tp(nj) not in cur_kids and tp(nj) not in [m["kid"] for m in st["removed"]]:
+                m = {"jwk": nj, "kid": tp(nj)}
+                t = call(jws.deserialize_compact, self._tok(m), ks, algorithms=[self.alg])
+                if t.ok:
+                    out["viol"].append(("a token of a key that is not in the set is verified", m["kid"]))
+                elif not isinstance(t.exc, InvalidKeyIdError):
+                    out["viol"].append(("token naming a kid that is not in the set is not reported as invalid-key-id", repr(t.exc)))
+                c = call(ks.get_by_kid, m["kid"])
+                if c.ok:
+                    out["viol"].append(("lookup by kid returns a key for a kid that is not in the set", m["kid"]))
         elif op == "lookup-removed":
             # on its own, so that no lookup of a current member comes between the removal and this one
             for m in st["removed"]:
